@@ -353,6 +353,18 @@ func streamC04(c *Ctx) {
 		}
 	}
 	famIns := map[string][]any{}
+	handPicked := map[string]bool{}
+	var first []string
+	for _, f := range firstBlocks() {
+		for i, src := range f.progs {
+			if c.Tier != "quick" || f.name == "regress" || f.name == "callee" || i%3 == int(c.Seed%3) {
+				first = append(first, src)
+				famIns[src] = f.ins
+				handPicked[src] = true
+			}
+		}
+	}
+	progs = append(first, progs...)
 	for _, f := range familyBlocks() {
 		if strings.HasPrefix(f.name, "inputs") || f.name == "deep" {
 			continue
@@ -372,7 +384,7 @@ func streamC04(c *Ctx) {
 	canonicalF3(c)
 	byRule := map[int]int{}
 	for _, src := range progs {
-		if dangerous(src) {
+		if !handPicked[src] && dangerous(src) {
 			continue
 		}
 		p, ok := prepare(src)
